@@ -77,3 +77,21 @@ Proof.
   unfold contains. destruct (cut pat l) as [[a b]|] eqn:C; [|discriminate]. intros _.
   rewrite (cut_app _ _ _ _ r C). reflexivity.
 Qed.
+
+(* ---- CRLF never straddles: splitting A ++ CRLF ++ B is splitting A and B ---- *)
+Lemma prefixb_CRLF_cons c l : prefixb CRLF (c :: l) = beq CR c && match l with d :: _ => beq LF d | [] => false end.
+Proof. unfold CRLF. cbn [prefixb]. destruct l as [|d l]; cbn [prefixb]; [rewrite andb_false_r; reflexivity|]. rewrite andb_true_r. reflexivity. Qed.
+
+Lemma cut_CRLF_none_app A B : cut CRLF A = None -> cut CRLF (A ++ CRLF ++ B) = Some (A, B).
+Proof.
+  induction A as [|c A IH]; intros H.
+  - reflexivity.
+  - cbn [cut] in H. destruct (prefixb CRLF (c :: A)) eqn:P; [discriminate|].
+    destruct (cut CRLF A) as [[a b]|] eqn:CA; [discriminate|].
+    cbn [app cut].
+    assert (P2 : prefixb CRLF (c :: A ++ CRLF ++ B) = false).
+    { rewrite prefixb_CRLF_cons in *. destruct A as [|d A]; cbn [app].
+      - unfold CRLF at 1. cbn [app]. destruct (beq CR c) eqn:E; [|reflexivity]. cbn [andb]. reflexivity.
+      - exact P. }
+    rewrite P2, (IH eq_refl). reflexivity.
+Qed.
